@@ -38,7 +38,8 @@ let () =
     let printed = get okv "printed" in
     let model =
       if kind = "ok"
-      then Printf.sprintf "exit=0 out=nonempty adds=%d printed=%s" ndir (if cmd = "print" then string_of_int ndir else "-")
+      then Printf.sprintf "exit=0 out=%s adds=%d printed=%s" (if cmd = "check" then "empty" else "nonempty") ndir
+             (if cmd = "print" then string_of_int ndir else "-")
       else "exit=1 out=empty" in
     let fails = ref [] in
     let fail s = fails := s :: !fails in
